@@ -7,6 +7,7 @@ CHECK = dict(
         "net/http, net/url, httputil.ReverseProxy internals and the loopback network are trusted",
         "the backend resolves dot segments by RFC 3986 remove_dot_segments or path.Clean, on the decoded path or with only unreserved escapes decoded",
         "concurrent part: goroutine schedules are sampled, not owned; the barrier only aligns the requests at the handler entry",
+        "the TLS bind is driven with HTTP/1.1 only (served like mustStartServer: Serve on a TLS listener made from the server's TLS configuration); HTTP/2 is not driven",
         "IPv4 peers are 127.0.0.1-127.0.0.8, the IPv6 peer is ::1 (the only loopback IPv6 address)",
     ],
     units=[
